@@ -194,6 +194,41 @@ def one(rec, hub, seed, tier, i):
                 rec.violation(MF, "from_df:accepted-rows-labelled-with-an-unknown-item-of-a-single-item-dimension", {"column": str(singles[0]), "head": d3.head(3).astype(str).to_dict("split")["data"]})
             except Exception:
                 pass
+    if layout == "long" and header in ("names", "letters") and not csv and i % 7 in (0, 3):
+        # (a) a refused import (a row missing / a row whose label only LOOKS like an item) must leave the dimensions - and with them every
+        #     later export and import over them - untouched; (b) if such a frame is imported at all, no entry may come from the stranger row
+        d4 = (df.reset_index() if df.index.names != [None] else df.copy()).reset_index(drop=True)
+        cands4 = [c for c in d4.columns if c in info["dimcol_of"] and len(info["dimcol_of"][c][2]) > 1]
+        if cands4 and len(d4) > 1:
+            c4 = cands4[int(rng.integers(0, len(cands4)))]
+            r4 = int(rng.integers(0, len(d4)))
+            true_lab = d4.loc[r4, c4]
+            lab = F.unknown_label(rng, info["dimcol_of"][c4][2], info["dimcol_of"][c4][3] is int)
+            d4[c4] = d4[c4].astype(object)
+            d5 = d4.copy()
+            d5.loc[r4, c4] = lab
+            d6 = d4.drop(index=r4).reset_index(drop=True)
+            # position of the entry that lost its row
+            lab_of = {info["dimcol_of"][c][0]: d4.loc[r4, c] for c in d4.columns if c in info["dimcol_of"]}
+            pos = tuple(list(s_[2]).index(lab_of[s_[0]]) if s_[0] in lab_of else 0 for s_ in spec)
+            for frame, what in ((d6, "row-missing"), (d5, "look-alike-label")):
+                for am, ae in ((False, False), (True, True), (False, True), (True, False)):
+                    rec.event(MF, sig=f"{what}|am={am}|ae={ae}|nd={k}|{header}", cls=f"from_df|{what}|then-valid-imports")
+                    try:
+                        y4 = fd.FlodymArray.from_df(dims=dims, df=frame.copy(), allow_missing_values=am, allow_extra_values=ae)
+                    except Exception:
+                        y4 = None
+                    if [list(d_.items) for d_ in dims] != [list(s_[2]) for s_ in spec]:
+                        rec.violation(MF, "from_df:dimension-items-changed-by-an-import", {"what": what, "allow_missing_values": am, "allow_extra_values": ae, "returned": y4 is not None,
+                                                                                          "items_now": [list(map(str, d_.items))[:6] for d_ in dims], "items_before": [list(map(str, s_[2]))[:6] for s_ in spec]})
+                        return
+                    if y4 is not None and isinstance(y4.values, np.ndarray) and y4.values.shape == values.shape:
+                        exp4 = values.copy()
+                        exp4[pos] = 0.0
+                        if not np.array_equal(y4.values, exp4):
+                            stranger = bool(y4.values[pos] != 0.0)
+                            rec.violation(MF, "from_df:entry-set-from-a-row-that-does-not-carry-its-labels" if stranger else "from_df:entry-under-wrong-label:after-a-row-was-lost",
+                                          {"what": what, "label_in_frame": repr(lab), "true_label": repr(true_lab), "column": str(c4), "allow_missing_values": am, "allow_extra_values": ae})
     types = "".join("i" if s[3] is int else "s" if s[3] is str else "u" for s in spec)
     sig = f"nd={k}|{types}|{layout}|{info['wide_dim']}|{header}|{in_index}|{vname == 'value'}|csv={csv}|omit={omit}|lens={[len(s[2]) for s in spec]}"
     rec.event(MF, sig=sig, cls=f"from_df|{layout}|{header}|idx={in_index}|csv={csv}",
